@@ -491,14 +491,17 @@ bool encode_array::shift(size_t len)
 	// move data segment to front
 	if (!len) {
 		size_t max, len = _state.done + _state.scratch;
-		if ((max = _d.length() <= len)) {
+		if ((max = _d.length()) <= len) {
 			return false;
 		}
 		uint8_t *d = reinterpret_cast<uint8_t *>(_d.base());
+		array::content *c = const_cast<array::content *>(_d.data());
+		if (!d || !c) {
+			return false;
+		}
 		size_t shift = max - len;
-		memcpy(d, d + shift, len);
-		_d.set(len);
-		return true;
+		memmove(d, d + shift, len);
+		return c->set_length(len);
 	}
 	// consume terminated data
 	if (len > _state.done) {
